@@ -476,9 +476,13 @@ def r4_document(rep, src):
     # the document is the header, then for every paragraph an empty line and the paragraph, each with exactly the text its own dump()
     # gives -- decided on the TEXT that reaches the file / is returned, whatever way it is assembled (writes into a buffer, a join).
     # The paragraph texts of the scenario end in blanks, a tab and U+3000 in front of the final newline: text of the last field.
-    texts = {'@header': 'Format: x\n', '@para1': 'Files: *\nLicense: a  \n', '@para2': 'License: b\n text\t\n', '@para3': 'License: c\n end\u3000\n'}
-    want = texts['@header'] + ''.join('\n' + texts[k_] for k_ in ('@para1', '@para2', '@para3'))
-    for to_file in (True, False):
+    texts = {'@header': 'Format: x\n', '@para1': 'Files: *\nLicense: a  \n', '@para2': 'License: b\n text\t\n', '@para3': 'License: c\n end\u3000\n',
+             '@para4': 'Files: debian/*\nLicense: b\n'}
+    # (the paragraphs in the order of the list -- also when a stand-alone License paragraph stands in front of a Files paragraph, as a
+    # document that was READ may have them)
+    for to_file, order in ((True, ('@para1', '@para2', '@para3')), (False, ('@para1', '@para2', '@para3')), (True, ('@para2', '@para1', '@para3', '@para4')),
+                           (False, ('@para2', '@para1', '@para3', '@para4'))):
+        want = texts['@header'] + ''.join('\n' + texts[k_] for k_ in order)
         bufs = {}
 
         def pdump(it, args, kw):
@@ -500,10 +504,11 @@ def r4_document(rep, src):
         heap = H.Heap(mod, hooks={'.dump': pdump, '.write': fwrite, '.getvalue': lambda it, a, k: bufs.get(a[0].name, ''),
                                   'io.StringIO': lambda it, a, k: it.h.alloc('StringIO', {})})
         hdr = heap.alloc('Header', {}, name='@header')
-        ps = [heap.alloc('FilesParagraph', {}, name='@para1'), heap.alloc('LicenseParagraph', {}, name='@para2'), heap.alloc('LicenseParagraph', {}, name='@para3')]
+        ps = [heap.alloc('FilesParagraph' if texts[k_].startswith('Files') else 'LicenseParagraph', {}, name=k_) for k_ in order]
         me = heap.alloc('Copyright', {'_Copyright__header': hdr, 'header': hdr, '_Copyright__paragraphs': heap.new_list(ps)}, name='@copyright')
         fobj = heap.alloc('File', {}, name='@file') if to_file else None
-        what = 'dump(%s) = header, then an empty line + paragraph for every paragraph, in list order' % ('f' if to_file else 'None')
+        what = 'dump(%s) = header, then an empty line + paragraph for every paragraph, in list order%s' % (
+            'f' if to_file else 'None', '' if order[0] == '@para1' else ' (a License paragraph in front of a Files paragraph)')
         try:
             r = H.Interp(heap).call(H.Closure(d.node, {}, me, d.cls), [fobj])
         except H.Raised as x:
